@@ -26,7 +26,7 @@ class C14(object):
     modelled = "the SLSQP optimiser is not modelled: its output is certified against the marginals and the IPF fixed point"
 
     def gen(self, rng, tier):
-        n_cases = 64 if tier == 'quick' else 600
+        n_cases = 64 if tier == 'quick' else 900
         for _ in range(n_cases):
             n = rng.choice([1, 2, 3, 3, 4]) if tier == 'thorough' else rng.choice([1, 2, 3, 3, 3, 3, 4])
             c = gen.rand_dist_case(rng, nmin=n, nmax=n, amax=2 if n == 4 else 3, bases=['linear', 2], max_support=10,
